@@ -76,7 +76,15 @@ EXPECTED_BRANCHES = [
         'RectPartition', 'NumpyTensorSpace', 'DiscretizedSpace', 'ProductSpace', 'Strings',
         'NumpyTensorSpaceConstWeighting', 'NumpyTensorSpaceArrayWeighting',
         'ProductSpaceConstWeighting', 'ProductSpaceArrayWeighting',
-        'NumpyTensorSpaceCustomInner', 'ProductSpaceCustomInner') for o in 'tf']
+        'NumpyTensorSpaceCustomInner', 'ProductSpaceCustomInner') for o in 'tf'] + [
+    'history/{}/{}'.format(k, o) for k in ('NumpyTensorSpace', 'DiscretizedSpace', 'ProductSpace')
+    for o in ('astype', 'real_space', 'complex_space')] + [
+    'history/NumpyTensorSpace/elem-real-imag', 'history/DiscretizedSpace/elem-real-imag'] + [
+    'history/chain/{}>{}'.format(a, b) for a in ('real_space', 'complex_space', 'astype')
+    for b in ('real_space', 'complex_space', 'astype')] + [
+    'history/dtype/' + d for d in ('float16', 'float32', 'float64', 'float128', 'complex64',
+                                   'complex128', 'complex256', 'int8', 'int64', 'uint8',
+                                   'bool')]
 KNOWN_EXPLAINS_DISAGREEMENT = False
 
 
@@ -1997,6 +2005,257 @@ def run_derived(ctx, spaces, elems):
             ctx.disagree(rep, impl[:300], ans[:300])
 
 
+# ---------------------------------------------------------------------------
+# HISTORY stream: chains of conversions; equal spaces must behave equally whatever their past
+# (astype / real_space / complex_space cache their results per instance)
+
+ALL_DTYPES = ['float16', 'float32', 'float64', 'float128', 'complex64', 'complex128',
+              'complex256', 'int8', 'int32', 'int64', 'uint8', 'uint64', 'bool']
+
+
+def _np_real(d):
+    d = np.dtype(d)
+    return np.finfo(d).dtype if d.kind == 'c' else d if d.kind in 'iuf' else None
+
+
+def _np_complex(d):
+    d = np.dtype(d)
+    return d if d.kind == 'c' else np.promote_types(d, np.complex64) if d.kind == 'f' else None
+
+
+def rebuild(s):
+    """An equal space built from scratch from the attributes of `s` (no shared caches)."""
+    import odl
+    from odl.space.npy_tensors import NumpyTensorSpace
+    if type(s) is NumpyTensorSpace:
+        if s.dtype.kind in 'iufc':
+            return NumpyTensorSpace(s.shape, s.dtype, weighting=s.weighting)
+        return NumpyTensorSpace(s.shape, s.dtype, exponent=s.exponent)
+    if type(s) is odl.DiscretizedSpace:
+        return odl.DiscretizedSpace(s.partition, rebuild(s.tspace), axis_labels=s.axis_labels)
+    if type(s) is odl.ProductSpace:
+        return odl.ProductSpace(*[rebuild(c) for c in s.spaces], weighting=s.weighting,
+                                field=s.field)
+    raise ValueError('cannot rebuild ' + type(s).__name__)
+
+
+def _apply(s, op):
+    """(outcome kind, result) of one conversion; never raises"""
+    import warnings
+    with warnings.catch_warnings():
+        warnings.simplefilter('ignore')
+        try:
+            if op[0] == 'astype':
+                return 'ok', s.astype(op[1])
+            return 'ok', getattr(s, op[0])
+        except Exception as e:  # noqa
+            return 'raise:' + type(e).__name__, None
+
+
+def _expected_leaf_dtypes(s, op):
+    """dtypes of the leaves after `op`, from NumPy alone; None = must raise"""
+    out = []
+    for c in _leaves(s):
+        d = c.dtype
+        if op[0] == 'astype':
+            e = np.dtype(op[1])
+        elif op[0] == 'real_space':
+            e = _np_real(d)
+        else:
+            e = _np_complex(d)
+        if e is None:
+            return None
+        out.append(e)
+    return out
+
+
+def _probe_values(space, rng):
+    """values exactly representable in the component dtype of `space` but using (almost) all
+    of its precision, so that a detour through a narrower dtype shows"""
+    d = space.dtype
+    n = int(np.prod(space.shape, dtype='int64'))
+    if d.kind in 'fc':
+        nm = min(np.finfo(d).nmant, 40)
+        eps = 2.0 ** -(nm - 3)
+        re = np.array([rng.randint(1, 4) + eps for _ in range(n)], dtype=np.finfo(d).dtype)
+        if d.kind == 'c':
+            im = np.array([rng.randint(1, 4) + 2 * eps for _ in range(n)],
+                          dtype=np.finfo(d).dtype)
+            return (re + 1j * im).astype(d).reshape(space.shape)
+        return re.astype(d).reshape(space.shape)
+    if d.kind in 'iu':
+        return np.array([rng.randint(0, 9) for _ in range(n)], dtype=d).reshape(space.shape)
+    return None
+
+
+def _history_elem_checks(ctx, cur, fresh, path, rng):
+    """(4) real / imag parts of elements of a space with history"""
+    import warnings
+    for sc, sf in zip(_leaves(cur), _leaves(fresh)):
+        if sc.dtype.kind not in 'fc' or sc.size == 0:
+            continue   # `.real` / `.imag` of integer elements raise NotImplementedError by an
+            #            explicit branch of the code (outside the property: observation only)
+        vals = _probe_values(sc, rng)
+        kind = cls(sc)
+        rep = {'kind': 'history', 'path': path, 'what': 'element.real/imag'}
+        ctx.case(('history-elem', kind, sc.dtype.name))
+        ctx.hit('history/{}/elem-real-imag'.format(kind))
+        with warnings.catch_warnings():
+            warnings.simplefilter('ignore')
+            try:
+                z, zf = sc.element(vals), sf.element(vals)
+                parts = [('real', z.real, zf.real, np.asarray(vals).real)]
+                if sc.dtype.kind in 'fc':
+                    parts.append(('imag', z.imag, zf.imag, np.asarray(vals).imag))
+                probs = []
+                for nm, p, pf, ref in parts:
+                    want = _np_real(sc.dtype)
+                    if p.dtype != want:
+                        probs.append('.{} has dtype {}, expected {}'.format(nm, p.dtype, want))
+                    if not np.array_equal(np.asarray(p.asarray()), ref.astype(want)):
+                        probs.append('.{} does not hold the {} parts of the values'.format(nm, nm))
+                    if not (p.space == pf.space and hash(p.space) == hash(pf.space)):
+                        probs.append('.{}.space is {!r} but {!r} for a freshly built equal '
+                                     'space'.format(nm, p.space, pf.space))
+            except Exception as e:  # noqa
+                probs = ['raised {}: {}'.format(type(e).__name__, str(e)[:100])]
+        if probs:
+            viol(ctx, 'history-element-parts {} dtype={}'.format(kind, sc.dtype.name),
+                 'after {}: element of {!r}: {}'.format(' -> '.join(path), sc, '; '.join(probs)),
+                 rep)
+
+
+def history_starts(ctx):
+    import odl
+    rng = ctx.rng
+    starts = []
+    for dt in ALL_DTYPES:
+        num = np.dtype(dt).kind in 'iufc'
+        kw = {'weighting': 1.5} if num else {}
+        starts.append(('ts((2,3),{})'.format(dt), lambda dt=dt, kw=kw: odl.tensor_space(
+            (2, 3), dtype=dt, **kw)))
+        if num:
+            starts.append(('ts(3,{},e=1)'.format(dt), lambda dt=dt: odl.tensor_space(
+                3, dtype=dt, exponent=1.0)))
+            starts.append(('ud((0,0),(1,1),(2,3),{})'.format(dt), lambda dt=dt: odl.uniform_discr(
+                [0, 0], [1, 1], (2, 3), dtype=dt)))
+            starts.append(('P(ts(2,{}),2,w=2,e=1)'.format(dt), lambda dt=dt: odl.ProductSpace(
+                odl.tensor_space(2, dtype=dt), 2, weighting=2.0, exponent=1.0)))
+    starts.append(('P(rn(2),rn(3,f16))', lambda: odl.ProductSpace(
+        odl.rn(2), odl.rn(3, dtype='float16'))))
+    starts.append(('P(cn(2,c64),ud(0,1,3,c64))', lambda: odl.ProductSpace(
+        odl.cn(2, dtype='complex64'), odl.uniform_discr(0, 1, 3, dtype='complex64'))))
+    return starts
+
+
+def run_history(ctx):
+    rng = ctx.rng
+    base_ops = [('real_space',), ('complex_space',)]
+    for name, make in history_starts(ctx):
+        try:
+            s0 = make()
+        except Exception as e:  # noqa
+            viol(ctx, 'constructor-raises history-start',
+                 '{} raised {}'.format(name, type(e).__name__), {'kind': 'history', 'path': [name]})
+            continue
+        d0 = next(_leaves(s0)).dtype
+        # systematic chains of length 2 over the counterpart conversions (every order), and
+        # random walks over all dtypes
+        conv = list(base_ops)
+        for e in (_np_real(d0), _np_complex(d0)):
+            if e is not None:
+                conv.append(('astype', np.dtype(e).name))
+        chains = [[a, b] for a in conv for b in base_ops + [('astype', d0.name)]]
+        for _ in range(2 if ctx.quick else 8):
+            chains.append([rng.choice(base_ops + [('astype', rng.choice(ALL_DTYPES))])
+                           for _ in range(rng.randint(3, 5))])
+        for chain in chains:
+            cur = make()
+            path = [name]
+            for op in chain:
+                opname = op[0] if len(op) == 1 else 'astype({})'.format(op[1])
+                kind = cls(cur)
+                rep = {'kind': 'history', 'path': path + [opname]}
+                try:
+                    fresh = rebuild(cur)
+                except Exception as e:  # noqa
+                    ctx.notes.append('history: cannot rebuild {!r}: {}'.format(cur, e))
+                    break
+                cur_dt = [c.dtype.name for c in _leaves(cur)]
+                ctx.case(('history', kind, op[0], tuple(sorted(set(cur_dt))),
+                          path[-1].split('(')[0] if len(path) > 1 else 'start'))
+                ctx.hit('history/{}/{}'.format(kind, op[0]))
+                if len(path) > 1:
+                    ctx.hit('history/chain/{}>{}'.format(path[-1].split('(')[0], op[0]))
+                for d in set(cur_dt):
+                    ctx.hit('history/dtype/' + d)
+                if not (fresh == cur and hash(fresh) == hash(cur)):
+                    viol(ctx, 'history-rebuild-unequal {}'.format(kind),
+                         'a space rebuilt from the attributes of {!r} is not equal to it'.format(
+                             cur), rep)
+                    break
+                k1, r1 = _apply(cur, op)
+                k2, r2 = _apply(fresh, op)
+                want = _expected_leaf_dtypes(cur, op)
+                key_tail = '{} op={} dtype={}'.format(kind, op[0], '+'.join(sorted(set(cur_dt))))
+                # (1) history independence
+                same = (k1 == k2) and (r1 is None or (r1 == r2 and hash(r1) == hash(r2)))
+                if not same:
+                    viol(ctx, 'history-dependent ' + key_tail,
+                         'after {}: {!r}.{} gives {} but the same call on a freshly built equal '
+                         'space gives {}'.format(' -> '.join(path), cur, opname,
+                                                 repr(r1) if r1 is not None else k1,
+                                                 repr(r2) if r2 is not None else k2), rep)
+                # (2) dtype of the result against the expectation from NumPy / the tables
+                if r1 is not None:
+                    got = [c.dtype for c in _leaves(r1)]
+                    if want is None:
+                        viol(ctx, 'history-no-raise ' + key_tail,
+                             'after {}: {!r}.{} returned {!r} although there is no such '
+                             'counterpart'.format(' -> '.join(path), cur, opname, r1), rep)
+                    elif got != want:
+                        viol(ctx, 'history-wrong-dtype ' + key_tail,
+                             'after {}: {!r}.{} has dtypes {} expected {}'.format(
+                                 ' -> '.join(path), cur, opname, [d.name for d in got],
+                                 [d.name for d in want]), rep)
+                    # (3) identities and round trips
+                    if want is not None and [np.dtype(d) for d in cur_dt] == want and \
+                            not (r1 == cur):
+                        viol(ctx, 'history-identity ' + key_tail,
+                             'after {}: {!r}.{} keeps every dtype but is != the space'.format(
+                                 ' -> '.join(path), cur, opname), rep)
+                    if op[0] == 'astype' and [np.dtype(d) for d in cur_dt] == want and \
+                            r1 is not cur:
+                        viol(ctx, 'history-identity ' + key_tail,
+                             'after {}: astype(own dtype) is not the space itself'.format(
+                                 ' -> '.join(path)), rep)
+                    if op[0] in ('real_space', 'complex_space') and want is not None:
+                        back_op = ('complex_space',) if op[0] == 'real_space' else ('real_space',)
+                        exact = (_expected_leaf_dtypes(r1, back_op) ==
+                                 [np.dtype(d) for d in cur_dt])
+                        floating = all(np.dtype(d).kind in 'fc' for d in cur_dt)
+                        if exact and floating:
+                            kb, rb = _apply(r1, back_op)
+                            if rb is None or not (rb == cur and hash(rb) == hash(cur)):
+                                viol(ctx, 'history-round-trip ' + key_tail,
+                                     'after {}: .{}.{} gives {} instead of the space'.format(
+                                         ' -> '.join(path), op[0], back_op[0],
+                                         repr(rb) if rb is not None else kb), rep)
+                elif want is not None and not (cls(cur) == 'ProductSpace' and len(cur) == 0):
+                    viol(ctx, 'history-raises ' + key_tail,
+                         'after {}: {!r}.{} raised {}'.format(' -> '.join(path), cur, opname, k1),
+                         rep)
+                if r1 is None:
+                    break
+                path = path + [opname]
+                cur = r1
+                # (4) elements of the space with history
+                try:
+                    _history_elem_checks(ctx, cur, rebuild(cur), path, rng)
+                except ValueError:
+                    pass
+
+
 def regenerate(ctx):
     from extract import dtypes as extract_dtypes
     changed = extract_dtypes.regenerate()
@@ -2013,6 +2272,7 @@ def run_all(ctx):
     spaces, elems = run_membership(ctx, zoo)
     run_elements(ctx, spaces, elems)
     run_derived(ctx, spaces, elems)
+    run_history(ctx)
 
 
 def run(ctx):
@@ -2035,6 +2295,8 @@ def search(ctx, broken):
             run_derived(sub, spaces, elems)
         except core.DriverBroken:
             pass
+        check_dtype_tables(sub)
+        run_history(sub)
         for v in sub.violations:
             ctx.violation(v['key'], v['what'], v['replay'])
     finally:
@@ -2058,9 +2320,12 @@ def replay(ctx, case):
             run_derived(sub, spaces, elems)
         except core.DriverBroken:
             pass
+        check_dtype_tables(sub)
+        run_history(sub)
         keep = [v for v in sub.violations
                 if all(v['replay'].get(k) == case.get(k) for k in ('kind', 'space', 'op', 'input',
-                                                                    'index', 'x', 'dtype'))]
+                                                                    'index', 'x', 'dtype',
+                                                                    'path', 'table'))]
         sub.violations = keep
     known = core.load_known(ctx.pid)
     fails = [v for v in sub.violations if core.match_known(v, known) is None]
